@@ -38,4 +38,24 @@ PROPS = {
         "quick": {"runs": [{"test": "^TestC04$", "shards": 16, "checks": 500, "timeout": 300}]},
         "thorough": {"runs": [{"test": "^TestC04$", "shards": 16, "checks": 12000, "timeout": 3000}]},
     },
+    "C16": {
+        "title": "A privilege bit means the same on the wire, in memory and on disk",
+        "level": "exploration",
+        "rule": "exhaustive over the 64 single-bit bitmaps, the 780 pairs of defined privileges, the 40 all-but-one bitmaps and empty/all "
+                "(TestC16Exhaustive), sampled 64-bit values and subsets beyond (TestC16Sampled), plus login-time wire check of the 354 "
+                "user-access bytes for accounts stored in named and legacy form (TestC16Wire) and per-bit authorization over all C05 cells "
+                "(TestC16Authz); oracle = independent privilege-number -> account-file-key table (hlref.PrivilegeNames) and MSB-first bit "
+                "numbering; non-trivial = bitmap has at least one defined privilege; distinct = hash(bitmap, storage form)",
+        "assumptions": ["hlref.PrivilegeNames (written from the protocol's privilege list) is the naming oracle"],
+        "quick": {"runs": [
+            {"test": "^TestC16Exhaustive$", "shards": 4, "timeout": 300},
+            {"test": "^TestC16Sampled$", "shards": 4, "checks": 2000, "timeout": 300},
+            {"test": "^TestC16Wire$", "shards": 4, "checks": 150, "timeout": 300},
+        ]},
+        "thorough": {"runs": [
+            {"test": "^TestC16Exhaustive$", "shards": 4, "timeout": 600},
+            {"test": "^TestC16Sampled$", "shards": 8, "checks": 60000, "timeout": 3000},
+            {"test": "^TestC16Wire$", "shards": 4, "checks": 4000, "timeout": 3000},
+        ]},
+    },
 }
